@@ -367,7 +367,7 @@ def fixed_cases():
 
 
 def run(ctx):
-    cases = fixed_cases() + [gen_case(ctx.rng) for _ in range(ctx.n(1500, 60000))]
+    cases = fixed_cases() + [gen_case(ctx.rng) for _ in range(ctx.n(1500, 100000))]
     impl = []
     for c in cases:
         res = run_impl(c)
